@@ -344,6 +344,15 @@ class Interp:
                 return m
         if isinstance(t, ast.Compare) and len(t.ops) == 1:
             a, b, op = t.left, t.comparators[0], t.ops[0]
+            # len(A) ==/!= len(B) where A is a selection of B: if the tracked element is in B but not in A the lengths differ
+            if isinstance(op, (ast.Eq, ast.NotEq)) and all(isinstance(x, ast.Call) and isinstance(x.func, ast.Name) and x.func.id == 'len' and len(x.args) == 1 for x in (a, b)):
+                va = self.ev(st, a.args[0])
+                vb = self.ev(st, b.args[0])
+                if len(va) == 1 and len(vb) == 1 and va[0][1][0] == 'list' and vb[0][1][0] == 'list':
+                    A, B = st.objs[va[0][1][1]], st.objs[vb[0][1][1]]
+                    for small, big in ((A, B), (B, A)):
+                        if big.attr is not None and big.attr in small.ordered_of and small.count < big.count:
+                            return isinstance(op, ast.NotEq)
             for x, y in ((a, b), (b, a)):
                 if self._is_param(st, x) and isinstance(y, ast.Constant) and y.value is None:
                     if isinstance(op, (ast.Eq, ast.Is)):
@@ -731,6 +740,12 @@ class Interp:
                             for entry in s2.log[len(s.log):]:
                                 if entry not in s.log:
                                     s.log.append(entry)
+                            # ... and a fresh list that the body fills for other elements is, on the real path too, a selection of
+                            # the iterated list in its order (even if the tracked element itself is never put into it)
+                            for oid2, o2 in s2.objs.items():
+                                o1 = s.objs.get(oid2)
+                                if o1 is not None and o1.fresh and not o2.fresh and o2.filled_by is loop:
+                                    o1.fresh, o1.filled_by, o1.ordered_of = False, loop, o2.ordered_of
                     except Unknown:
                         s.log.append(('unrecognised', 'loop body', line))
                 if s.objs[oid].count == 0:
